@@ -86,9 +86,15 @@ def gen_pool(rng, w, n_tables=(2, 4), n_dms=(2, 5), n_ammos=(2, 4), n_atmos=(2, 
 
 
 def gen_weapon(rng):
-    return {"sight_height": {"ref": 1} if rng.random() < 0.25 else [round(rng.uniform(-1.0, 4.0), 2), gen.pick(rng, ["Inch", "Centimeter"])],
-            "twist": [gen.pick(rng, [0, 7, 9, 10, 11.24, 12, -8, -10]), "Inch"],
-            "zero": gen.gen_angle_deg(rng, round(rng.uniform(-0.1, 0.4), 4))}
+    w = {"sight_height": {"ref": 1} if rng.random() < 0.25 else [round(rng.uniform(-1.0, 4.0), 2), gen.pick(rng, ["Inch", "Centimeter"])],
+         "twist": [gen.pick(rng, [0, 7, 9, 10, 11.24, 12, -8, -10]), "Inch"],
+         "zero": gen.gen_angle_deg(rng, round(rng.uniform(-0.1, 0.4), 4))}
+    # arguments LEFT OUT (the constructor's own defaults) are inputs too (side stream, see gen_shot)
+    r2 = random.Random(repr(rng.getstate()[1][:6]) + "omit")
+    for f in ("twist", "zero", "sight_height"):
+        if r2.random() < 0.12:
+            w[f] = None
+    return w
 
 
 def gen_shot(rng, w, weapon_id, steep_p=0.15):
